@@ -1125,6 +1125,96 @@ impl<'a, 'b> Gen<'a, 'b> {
         cmds
     }
 
+    /// A lattice function keyed by a container of e-classes: two rows whose keys differ in one leaf,
+    /// then the leaves are unioned, so the two keys become the same container and the rows must
+    /// merge. Observed through print-size, print-function and checks on the looked-up value.
+    fn keyed_function_scenario(&mut self) -> Vec<Cmd> {
+        let mut cmds = vec![];
+        let gs: Vec<usize> = self
+            .sig
+            .funcs
+            .iter()
+            .enumerate()
+            .filter(|(_, f)| f.is_func() && f.args.iter().any(|a| matches!(a, Ty::Cont(_))) && matches!(f.out, Ty::I64 | Ty::Bool))
+            .map(|(i, _)| i)
+            .collect();
+        if gs.is_empty() {
+            return cmds;
+        }
+        let g = *self.src.pick(&gs);
+        let decl = self.sig.funcs[g].clone();
+        let s0 = Ty::Eq(0);
+        let leaves: Vec<Term> = self.pool.iter().filter(|(t, x)| *t == s0 && x.size() == 1).map(|(_, x)| x.clone()).collect();
+        if leaves.len() < 2 {
+            return cmds;
+        }
+        let ia = self.src.below(leaves.len());
+        let mut ib = self.src.below(leaves.len() - 1);
+        if ib >= ia {
+            ib += 1;
+        }
+        let (a, b) = (leaves[ia].clone(), leaves[ib].clone());
+        let shared = if self.src.chance(1, 2) { Some(self.src.pick(&leaves).clone()) } else { None };
+        fn lit(sig: &Sig, ci: usize, leaf: &Term, shared: &Option<Term>) -> Option<Term> {
+            let d = &sig.conts[ci];
+            let ctor = cont_ctor(d.kind).to_string();
+            match &d.elem {
+                Ty::Eq(0) => {
+                    let mut v = vec![leaf.clone()];
+                    if let Some(e) = shared {
+                        v.push(e.clone());
+                    }
+                    Some(Term::Prim(ctor, v))
+                }
+                Ty::Cont(inner) => Some(Term::Prim(ctor, vec![lit(sig, *inner, leaf, shared)?])),
+                _ => None,
+            }
+        }
+        let mut ka = vec![];
+        let mut kb = vec![];
+        for t in &decl.args {
+            match t {
+                Ty::Cont(ci) => {
+                    let (Some(x), Some(y)) = (lit(&self.sig, *ci, &a, &shared), lit(&self.sig, *ci, &b, &shared)) else { return cmds };
+                    ka.push(x);
+                    kb.push(y);
+                }
+                Ty::I64 => {
+                    let n = Term::I(self.src.below(3) as i64);
+                    ka.push(n.clone());
+                    kb.push(n);
+                }
+                other => {
+                    let c: Vec<Term> = self.pool.iter().filter(|(t, x)| t == other && x.size() == 1).map(|(_, x)| x.clone()).collect();
+                    if c.is_empty() {
+                        return cmds;
+                    }
+                    let x = self.src.pick(&c).clone();
+                    ka.push(x.clone());
+                    kb.push(x);
+                }
+            }
+        }
+        let (va, vb) = match decl.out {
+            Ty::I64 => (Term::I(self.src.below(9) as i64), Term::I(self.src.below(9) as i64)),
+            _ => (Term::B(self.src.bool()), Term::B(self.src.bool())),
+        };
+        cmds.push(Cmd::Act(Action::Set(g, ka.clone(), va)));
+        cmds.push(Cmd::Act(Action::Set(g, kb.clone(), vb)));
+        cmds.push(Cmd::PrintSize(Some(g)));
+        cmds.push(Cmd::Act(Action::Union(a, b)));
+        if self.src.bool() {
+            cmds.push(Cmd::RunN { rs: None, n: 1, until: vec![] });
+        }
+        cmds.push(Cmd::PrintSize(Some(g)));
+        cmds.push(Cmd::PrintFunction(g, 10));
+        // the looked-up value under either key: a query variable bound to the function's output
+        let v = Term::Var("kv".into());
+        let key = if self.src.bool() { ka } else { kb };
+        cmds.push(Cmd::Check(vec![Fact::Eq(v, Term::App(g, key))]));
+        cmds
+    }
+
     /// Rules that keep changing the database for several iterations.
     fn dynamics_scenario(&mut self) -> Vec<Cmd> {
         let mut cmds = vec![];
@@ -1244,6 +1334,11 @@ impl<'a, 'b> Gen<'a, 'b> {
         // phase 0b: in-place container rebuild scenario (#831 / nested dirty-id shapes)
         if self.cfg.containers && self.src.chance(1, 2) {
             let sc = self.container_scenario();
+            cmds.extend(sc);
+        }
+        // phase 0b': rows of a container-keyed function whose keys collapse after a union
+        if self.cfg.containers && !self.cfg.no_container_func_keys && self.sig.funcs.iter().any(|f| f.is_func() && f.args.iter().any(|a| matches!(a, Ty::Cont(_)))) && self.src.chance(2, 3) {
+            let sc = self.keyed_function_scenario();
             cmds.extend(sc);
         }
         // phase 0c: multi-iteration dynamics (transitive closure over a binary relation / bounded counter)
